@@ -7,7 +7,7 @@ from .c04 import judge, spec_tensor, rand_hermitian_iop
 
 IMPORTS = ('From OFV Require Import Base.Cplx Base.Lin Sem.PauliSem Sem.FermiSem Model.SymbolicOp Model.QubitOp Model.LadderOp Model.JordanWigner '
            'Model.BravyiKitaev Model.Program Check.DictEquiv Check.OpEquiv Check.Encoding Thm.C05.Sets.\n')
-NEEDS = ['Thm/C05/BKB', 'Thm/C05/Sets', 'Thm/C05/BKLinear', 'Check/Encoding']
+NEEDS = ['Thm/C05/BKB', 'Thm/C05/Sets', 'Thm/C05/BKLinear', 'Thm/C05/BKTreeLinear', 'Check/Encoding']
 def cZl(l): return '(' + clist([cZ(int(x)) for x in l]) + ' : list Z)'
 
 def majorana_as_fermion(of, term, coeff):
